@@ -248,6 +248,10 @@ func genDataset(x *simkit.Exec, o genOpts) *dataset {
 			if mode == "ext" {
 				kv = append(kv, "r", rValues[x.Draw("extreplica", nReplicas)])
 			}
+			if nExt > 1 && x.Bool("exthetero", 1, 2) {
+				// label sets of one store need not have the same label names
+				kv = append(kv, "z", zValues[x.Draw("extz", len(zValues))])
+			}
 			ext := mkLabels(kv...)
 			if extSeen[ext.String()] {
 				continue
